@@ -43,6 +43,12 @@ class F:
                     for t in st.targets:
                         if isinstance(t, ast.Name):
                             d[t.id] = st.value if len(st.targets) == 1 else None
+                        elif isinstance(t, ast.Tuple) and isinstance(st.value, ast.Tuple) and len(t.elts) == len(st.value.elts) and len(st.targets) == 1 and all(isinstance(x_, ast.Name) for x_ in t.elts):
+                            # `a, b = (x, y)`: element-wise definitions (when no right side reads a left name)
+                            lhs = {x_.id for x_ in t.elts}
+                            rhs_reads = {x_.id for v_ in st.value.elts for x_ in ast.walk(v_) if isinstance(x_, ast.Name)}
+                            for x_, v_ in zip(t.elts, st.value.elts):
+                                d[x_.id] = v_ if not (lhs & rhs_reads) else None
                         else:
                             for x_ in ast.walk(t):
                                 if isinstance(x_, ast.Name) and isinstance(x_.ctx, ast.Store):
